@@ -154,6 +154,7 @@ impl Property for C05 {
     }
     fn strategy(&self, tier: Tier) -> BoxedStrategy<Case> {
         let mut dp = DicParams::small();
+        dp.big_matrix = true;
         dp.boundaries = true;
         dp.escapes = true;
         dp.square_only = false;
